@@ -62,8 +62,14 @@ func verifyFunction(P *Program, fn *ssa.Function, con *Contract, safe bool, prop
 			st.assume(e.evalSpecBool(st, st, c.Expr, env))
 		}
 	}
+	e.touchGhosts(st)
 	e.addParamModelTerms(st)
 	e.entry = st.clone()
+	if con != nil {
+		env := e.rootEnv(st, nil)
+		env.fr = nil
+		e.applyGhostEffects(st, con, env)
+	}
 	e.exec(st, 0)
 	e.renameSites()
 	return e
